@@ -37,10 +37,11 @@ def forwardCheck : Bool :=
 theorem forward_check : forwardCheck = true := by decide +kernel
 
 /-- **Every option that changes what the remote side must do reaches it, for every option set.**
-For every assignment `σ` of the client's accessors, the server-side parser accepts the argument
-list `ServerOptions` renders and ends in a state whose accessors are exactly the client's (role
-mirrored). -/
-theorem forward_roundtrip (σ : Acc → Bool) :
+For every assignment `σ` of the client's accessors that the client's own parser lets through (`--delete` only
+together with `-r`: `ParseArguments` refuses the rest on either side, `finish_refuses_delete_without_recursion`
+below), the server-side parser accepts the argument list `ServerOptions` renders and ends in a state whose
+accessors are exactly the client's (role mirrored). -/
+theorem forward_roundtrip (σ : Acc → Bool) (hσ : σ .DeleteMode = true → σ .Recurse = true) :
     ∃ s', parse (serverOptions σ) = .ok s' ∧ ∀ p ∈ forwardSpec, acc s' p.1 = cEval σ p.2 := by
   have hc := forward_check
   unfold forwardCheck at hc
@@ -50,7 +51,18 @@ theorem forward_roundtrip (σ : Acc → Bool) :
     rw [ht] at hc
     simp only [Bool.and_eq_true, List.all_eq_true, beq_iff_eq, bne_iff_ne, ne_eq] at hc
     obtain ⟨hok, hall⟩ := hc
-    obtain ⟨s', hs', hf⟩ := parse_serverOptions σ t ht hok
+    have hdel : cEval σ (setFormula t .f_delete_mode) = true → cEval σ (setFormula t .f_recurse) = true := by
+      have e1 : cEval σ (setFormula t (accField .DeleteMode)) = cEval σ (.atom (.acc .DeleteMode)) :=
+        BExpr.equivB_sound _ _ (hall (.DeleteMode, .atom (.acc .DeleteMode)) (by simp [forwardSpec])).2 _
+      have e2 : cEval σ (setFormula t (accField .Recurse)) = cEval σ (.atom (.acc .Recurse)) :=
+        BExpr.equivB_sound _ _ (hall (.Recurse, .atom (.acc .Recurse)) (by simp [forwardSpec])).2 _
+      have a1 : accField .DeleteMode = .f_delete_mode := rfl
+      have a2 : accField .Recurse = .f_recurse := rfl
+      rw [a1] at e1
+      rw [a2] at e2
+      rw [e1, e2]
+      simpa [cEval, BExpr.eval] using hσ
+    obtain ⟨s', hs', hf⟩ := parse_serverOptions σ t ht hok hdel
     refine ⟨s', hs', ?_⟩
     intro p hp
     obtain ⟨⟨h0, hx⟩, heq⟩ := hall p hp
@@ -60,12 +72,12 @@ theorem forward_roundtrip (σ : Acc → Bool) :
     exact BExpr.equivB_sound _ _ heq _
 
 /-- in terms of a client option state `o`: the server's view of each transfer option is the client's -/
-theorem server_sees_client_options (o : St) :
+theorem server_sees_client_options (o : St) (ho : acc o .DeleteMode = true → acc o .Recurse = true) :
     ∃ s', parse (serverOptions (acc o)) = .ok s' ∧
       acc s' .Server = true ∧ acc s' .Sender = !acc o .Sender ∧
       (∀ a ∈ [Acc.AlwaysChecksum, .DeleteMode, .DryRun, .IgnoreTimes, .PreserveDevices, .PreserveGid, .PreserveLinks,
               .PreserveMTimes, .PreservePerms, .PreserveSpecials, .PreserveUid, .Recurse, .UpdateOnly, .Verbose], acc s' a = acc o a) := by
-  obtain ⟨s', hs', h⟩ := forward_roundtrip (acc o)
+  obtain ⟨s', hs', h⟩ := forward_roundtrip (acc o) ho
   refine ⟨s', hs', ?_, ?_, ?_⟩
   · simpa [cEval, BExpr.eval] using h (.Server, .tt) (by simp [forwardSpec])
   · simpa [cEval, BExpr.eval] using h (.Sender, .not (.atom (.acc .Sender))) (by simp [forwardSpec])
@@ -74,6 +86,45 @@ theorem server_sees_client_options (o : St) :
       simp only [List.mem_cons, List.not_mem_nil, or_false] at ha
       rcases ha with rfl | rfl | rfl | rfl | rfl | rfl | rfl | rfl | rfl | rfl | rfl | rfl | rfl | rfl <;> simp [forwardSpec]
     simpa [cEval, BExpr.eval] using h _ hm
+
+/-- **`--delete` without `-r` is refused by `ParseArguments`, on whichever side it is parsed (D47)**: the deletion
+pass walks the whole destination, and without recursion the list names the top level at most. So every option state
+a parser hands on satisfies the premise of the forwarding theorems. -/
+theorem finish_refuses_delete_without_recursion (n : Nat) (s : St) (hv : s.version = false)
+    (hh : s.ints .f_human_readable ≤ 1) (hd : s.ints .f_delete_mode ≠ 0) (hr : s.ints .f_recurse = 0) :
+    finish n s = .err := by
+  have hh' : ¬ (s.ints .f_human_readable > 1 ∧ n = 1) := fun h => by omega
+  simp [finish, hv, hh', hd, hr]
+
+theorem finish_ok_delete_needs_recursion (n : Nat) (s s' : St) (h : finish n s = .ok s') :
+    acc s' .DeleteMode = true → acc s' .Recurse = true := by
+  unfold finish at h
+  split at h
+  · cases h
+  · split at h
+    · cases h
+    · split at h
+      · cases h
+      · rename_i _ _ hdr
+        injection h with h
+        subst h
+        intro hd
+        have a1 : accField .DeleteMode = .f_delete_mode := rfl
+        have a2 : accField .Recurse = .f_recurse := rfl
+        simp only [acc, a1, a2, bne_iff_ne, ne_eq] at hd ⊢
+        have key : ∀ (s0 : St) (v : Int) (f : Field), f ≠ .f_xfer_dirs → (s0.set .f_xfer_dirs v).ints f = s0.ints f := by
+          intro s0 v f hf; simp [St.set, hf]
+        have e : ∀ f, f ≠ Field.f_xfer_dirs →
+            (if (if s.ints .f_recurse ≠ 0 then s.set .f_xfer_dirs 1 else s).ints .f_xfer_dirs < 0 then
+              (if s.ints .f_recurse ≠ 0 then s.set .f_xfer_dirs 1 else s).set .f_xfer_dirs 0
+             else (if s.ints .f_recurse ≠ 0 then s.set .f_xfer_dirs 1 else s)).ints f = s.ints f := by
+          intro f hf
+          by_cases h1 : s.ints .f_recurse ≠ 0
+          · simp only [h1, ne_eq, not_false_eq_true, if_true]; split <;> simp [key _ _ f hf]
+          · simp only [h1, if_false]; split <;> simp [key _ _ f hf]
+        rw [e _ (by decide)] at hd ⊢
+        intro hr0
+        exact hdr ⟨hd, hr0⟩
 
 /-! ## the receiving side's options: the two `receiver.TransferOpts` literals agree -/
 
@@ -107,21 +158,21 @@ def flistOpts (s : St) : Flist.Opts :=
 
 /-- **no desynchronisation of the file list, in either direction, for every option set**: the
 server encodes/decodes with exactly the client's set of optional fields -/
-theorem flist_opts_agree (o : St) : ∃ s', parse (serverOptions (acc o)) = .ok s' ∧ flistOpts s' = flistOpts o := by
-  obtain ⟨s', hs', _, _, h⟩ := server_sees_client_options o
+theorem flist_opts_agree (o : St) (ho : acc o .DeleteMode = true → acc o .Recurse = true) : ∃ s', parse (serverOptions (acc o)) = .ok s' ∧ flistOpts s' = flistOpts o := by
+  obtain ⟨s', hs', _, _, h⟩ := server_sees_client_options o ho
   refine ⟨s', hs', ?_⟩
   simp only [flistOpts]
   rw [h .PreserveUid (by simp), h .PreserveGid (by simp), h .PreserveLinks (by simp), h .PreserveDevices (by simp),
     h .PreserveSpecials (by simp), h .AlwaysChecksum (by simp)]
 
 /-- so the entry one side writes is the entry the other reads (C15's round trip with equal options) -/
-theorem no_desync_entry (o : St) (last e : Flist.Entry) (rest : Flist.Str)
+theorem no_desync_entry (o : St) (ho : acc o .DeleteMode = true → acc o .Recurse = true) (last e : Flist.Entry) (rest : Flist.Str)
     (hlen : e.name.length < Flist.pathMax) (hclean : PathClean.clean e.name = e.name)
     (htl : e.target.length < Flist.pathMax) (hsum : (flistOpts o).checksum = true → e.sum.length = 16) :
     ∃ s', parse (serverOptions (acc o)) = .ok s' ∧
       Flist.decodeEntry (flistOpts s') (Flist.flagsOf (Flist.gokrChoice e)) last ((Flist.gokrEncode (flistOpts o) e).tail ++ rest)
         = .ok (Flist.project (flistOpts o) e, rest) := by
-  obtain ⟨s', hs', heq⟩ := flist_opts_agree o
+  obtain ⟨s', hs', heq⟩ := flist_opts_agree o ho
   exact ⟨s', hs', by rw [heq]; exact Flist.decode_gokrEncode _ last e rest hlen hclean htl hsum⟩
 
 /-! ## the filter list travels exactly when the other end expects it -/
@@ -144,10 +195,10 @@ theorem filter_schedule :
     filterSchedule.length = 6 := by decide
 
 /-- a sending client transmits the filter list exactly when the receiving server waits for one -/
-theorem filter_list_agree (o : St) (hs : acc o .Sender = true) :
+theorem filter_list_agree (o : St) (hs : acc o .Sender = true) (ho : acc o .DeleteMode = true → acc o .Recurse = true) :
     ∃ s', parse (serverOptions (acc o)) = .ok s' ∧ acc s' .Sender = false ∧
       cEval (acc o) (schedGuard "ClientRun" "send" 0) = cEval (acc s') (schedGuard "handleConnReceiver" "recv" 0) := by
-  obtain ⟨s', hs', _, hsn, h⟩ := server_sees_client_options o
+  obtain ⟨s', hs', _, hsn, h⟩ := server_sees_client_options o ho
   refine ⟨s', hs', by simp [hsn, hs], ?_⟩
   have f := filter_schedule
   rw [show cEval (acc o) (schedGuard "ClientRun" "send" 0) = (acc o .Sender && acc o .DeleteMode) from
@@ -162,7 +213,7 @@ theorem filter_list_agree (o : St) (hs : acc o .Sender = true) :
 /-- `--specials` without `--devices` (D15: once a deadlock): forwarded as such -/
 example : ∃ s', parse (serverOptions (fun a => a == .PreserveSpecials || a == .Recurse)) = .ok s' ∧
     acc s' .PreserveSpecials = true ∧ acc s' .PreserveDevices = false := by
-  obtain ⟨s', h, hh⟩ := forward_roundtrip (fun a => a == .PreserveSpecials || a == .Recurse)
+  obtain ⟨s', h, hh⟩ := forward_roundtrip (fun a => a == .PreserveSpecials || a == .Recurse) (by decide)
   have h1 := hh (.PreserveSpecials, .atom (.acc .PreserveSpecials)) (by simp [forwardSpec])
   have h2 := hh (.PreserveDevices, .atom (.acc .PreserveDevices)) (by simp [forwardSpec])
   exact ⟨s', h, by rw [h1]; decide, by rw [h2]; decide⟩
